@@ -1106,7 +1106,12 @@ class TorConfig:
                             initial = [initial]
                     except KeyError:
                         default_key = '__{}'.format(name[:-5])
+                        self.config.pop(rn, None)
                         default = yield self.protocol.get_conf_single(default_key)
+                        if rn in self.config:
+                            # a CONF_CHANGED for this option arrived while
+                            # we were asking; it is newer than our answer
+                            continue
                         if not default or default == DEFAULT_VALUE:
                             initial = []
                         else:
